@@ -5,7 +5,8 @@ from session import ServerDied
 LEVEL = 'model_checking'
 RULE = ('TLC checks the iteration guarantee on the implementation-shaped cursor model spec/impl/ImplScan.tla (cursor = '
         'position in hash order, repaired design; the pinned index-into-sorted-list design is kept as a switch and yields the '
-        'skip schedule); on the real server full cursor iterations of SCAN/HSCAN/SSCAN/ZSCAN with every COUNT from 1, MATCH '
+        'skip schedule), and Apalache discharges an inductive invariant of the repaired mechanism (spec/impl/ImplScanInd.tla: every element present throughout and in front of the cursor has been returned) for any number of '
+        'additions and deletions between calls and any COUNT, with the index cursor as a control that must fail; on the real server full cursor iterations of SCAN/HSCAN/SSCAN/ZSCAN with every COUNT from 1, MATCH '
         'globs and TYPE run while other elements are added and deleted between calls (TLC-found skip schedules first, then '
         'seeded random ones, then large collections in which MATCH selects a handful of elements so that many calls in a row '
         'return nothing, then MATCH over the glob matrix — every pattern over {a,b,*,?} up to length 3/4 plus classes, escapes and overlapping false starts against every subject over {a,b} up to length 4/5); the trace spec keeps per iteration the sets stable/ever/returned and requires, when the cursor '
@@ -276,6 +277,13 @@ def skip_schedule(ctx, srv):
 
 
 def run(ctx):
+    # an inductive invariant of the repaired cursor mechanism (any number of additions and deletions between calls, any COUNT),
+    # discharged by Apalache in the background; TLC checks in ImplScan that the set formulation used there agrees with the sequence one
+    apa = ctx.apalache_start('ImplScanInd', [
+        ('init-implies-inv', ['--cinit=CInit', '--init=Init', '--inv=IndInv', '--length=0'], 'ok'),
+        ('inv-is-inductive', ['--cinit=CInit', '--init=IndInit', '--inv=IndInv', '--length=1'], 'ok'),
+        ('inv-implies-guarantee', ['--cinit=CInit', '--init=IndInit', '--inv=Guarantee', '--length=0'], 'ok'),
+        ('control-index-cursor-is-not-inductive', ['--cinit=CInit', '--init=IndInit', '--next=NextPinned', '--inv=IndInv', '--length=1'], 'violated')])
     ctx.model_check('ImplScan', 'MC_Scan_fixed', workers=8, timeout=1200, subdir='impl')
     srv = ctx.new_server()
     skip_schedule(ctx, srv)
@@ -287,6 +295,7 @@ def run(ctx):
     ng = glob_iterations(ctx, srv)
     ctx.extra_cov['glob_iterations'] = ng
     n += ng
+    ctx.apalache_wait(apa)
     ctx.extra_cov['iterations'] = n
     ctx.extra_cov['distinct_cases'] = n + 4
 
